@@ -18,6 +18,7 @@ from __future__ import annotations
 
 import collections
 import datetime
+import functools
 import threading
 from typing import Optional
 
@@ -57,6 +58,27 @@ def _get_current_time() -> timestamp_pb2.Timestamp:
 
 StudyResource = resources.StudyResource
 TrialResource = resources.TrialResource
+
+
+def _report_lookup_errors(method):
+  """Reports datastore lookup errors with their status code when behind gRPC.
+
+  In the local case (context=None) the custom error itself is raised, as before.
+  Behind gRPC an uncaught exception would reach the client as UNKNOWN; report
+  NOT_FOUND / ALREADY_EXISTS instead, so that clients see the same error class
+  in both cases.
+  """
+
+  @functools.wraps(method)
+  def wrapper(self, request, context=None):
+    try:
+      return method(self, request, context)
+    except (custom_errors.NotFoundError, custom_errors.AlreadyExistsError) as e:
+      if context is None:
+        raise
+      grpc_util.handle_exception(e, context)
+
+  return wrapper
 
 
 # TODO: remove context = None
@@ -205,6 +227,7 @@ class VizierServicer(vizier_service_pb2_grpc.VizierServiceServicer):
       self.datastore.create_study(study)
     return study
 
+  @_report_lookup_errors
   def GetStudy(
       self,
       request: vizier_service_pb2.GetStudyRequest,
@@ -213,6 +236,7 @@ class VizierServicer(vizier_service_pb2_grpc.VizierServiceServicer):
     """Gets a Study by name. If the study does not exist, return error."""
     return self.datastore.load_study(request.name)
 
+  @_report_lookup_errors
   def ListStudies(
       self,
       request: vizier_service_pb2.ListStudiesRequest,
@@ -222,6 +246,7 @@ class VizierServicer(vizier_service_pb2_grpc.VizierServiceServicer):
     studies = self.datastore.list_studies(request.parent)
     return vizier_service_pb2.ListStudiesResponse(studies=studies)
 
+  @_report_lookup_errors
   def DeleteStudy(
       self,
       request: vizier_service_pb2.DeleteStudyRequest,
@@ -231,6 +256,7 @@ class VizierServicer(vizier_service_pb2_grpc.VizierServiceServicer):
     self.datastore.delete_study(request.name)
     return empty_pb2.Empty()
 
+  @_report_lookup_errors
   def SetStudyState(
       self,
       request: vizier_service_pb2.SetStudyStateRequest,
@@ -242,6 +268,7 @@ class VizierServicer(vizier_service_pb2_grpc.VizierServiceServicer):
       self.datastore.update_study(study)
     return study
 
+  @_report_lookup_errors
   def SuggestTrials(
       self,
       request: vizier_service_pb2.SuggestTrialsRequest,
@@ -469,6 +496,7 @@ class VizierServicer(vizier_service_pb2_grpc.VizierServiceServicer):
       self.datastore.update_suggestion_operation(output_op)
       return output_op
 
+  @_report_lookup_errors
   def GetOperation(
       self,
       request: operations_pb2.GetOperationRequest,
@@ -477,6 +505,7 @@ class VizierServicer(vizier_service_pb2_grpc.VizierServiceServicer):
     """Gets the latest state of a SuggestTrials() long-running operation."""
     return self.datastore.get_suggestion_operation(request.name)
 
+  @_report_lookup_errors
   def CreateTrial(
       self,
       request: vizier_service_pb2.CreateTrialRequest,
@@ -503,6 +532,7 @@ class VizierServicer(vizier_service_pb2_grpc.VizierServiceServicer):
       self.datastore.create_trial(trial)
     return trial
 
+  @_report_lookup_errors
   def GetTrial(
       self,
       request: vizier_service_pb2.GetTrialRequest,
@@ -511,6 +541,7 @@ class VizierServicer(vizier_service_pb2_grpc.VizierServiceServicer):
     """Gets a Trial."""
     return self.datastore.get_trial(request.name)
 
+  @_report_lookup_errors
   def ListTrials(
       self,
       request: vizier_service_pb2.ListTrialsRequest,
@@ -520,6 +551,7 @@ class VizierServicer(vizier_service_pb2_grpc.VizierServiceServicer):
     list_of_trials = self.datastore.list_trials(request.parent)
     return vizier_service_pb2.ListTrialsResponse(trials=list_of_trials)
 
+  @_report_lookup_errors
   def AddTrialMeasurement(
       self,
       request: vizier_service_pb2.AddTrialMeasurementRequest,
@@ -567,6 +599,7 @@ class VizierServicer(vizier_service_pb2_grpc.VizierServiceServicer):
 
   # TODO: Auto selection defaults to the last measurement.
   # Add support for "best measurement" behavior.
+  @_report_lookup_errors
   def CompleteTrial(
       self,
       request: vizier_service_pb2.CompleteTrialRequest,
@@ -613,6 +646,7 @@ class VizierServicer(vizier_service_pb2_grpc.VizierServiceServicer):
       self.datastore.update_trial(trial)
     return trial
 
+  @_report_lookup_errors
   def DeleteTrial(
       self,
       request: vizier_service_pb2.DeleteTrialRequest,
@@ -630,6 +664,7 @@ class VizierServicer(vizier_service_pb2_grpc.VizierServiceServicer):
     return empty_pb2.Empty()
 
   # TODO: This currently uses the same algorithm as suggestion.
+  @_report_lookup_errors
   def CheckTrialEarlyStoppingState(
       self,
       request: vizier_service_pb2.CheckTrialEarlyStoppingStateRequest,
@@ -826,6 +861,7 @@ class VizierServicer(vizier_service_pb2_grpc.VizierServiceServicer):
           should_stop=output_operation.should_stop
       )
 
+  @_report_lookup_errors
   def StopTrial(
       self,
       request: vizier_service_pb2.StopTrialRequest,
@@ -871,6 +907,7 @@ class VizierServicer(vizier_service_pb2_grpc.VizierServiceServicer):
         grpc_util.handle_exception(e, context)
     return trial
 
+  @_report_lookup_errors
   def ListOptimalTrials(
       self,
       request: vizier_service_pb2.ListOptimalTrialsRequest,
@@ -941,6 +978,7 @@ class VizierServicer(vizier_service_pb2_grpc.VizierServiceServicer):
         optimal_trials=optimal_trials
     )
 
+  @_report_lookup_errors
   def UpdateMetadata(
       self,
       request: vizier_service_pb2.UpdateMetadataRequest,
